@@ -456,7 +456,8 @@ pub fn big_val(env: &Env, t: &Ty, ctr: &mut u64, width: usize, fuel: usize) -> O
             let mut out = vec![];
             if fuel > 1 {
                 for _ in 0..width {
-                    match big_val(env, x, ctr, width, fuel) {
+                    // nested vectors get shorter (the total stays bounded: w * w/2 * w/4 ...)
+                    match big_val(env, x, ctr, (width / 2).max(1), fuel) {
                         Some(v) => out.push(v),
                         None => break,
                     }
